@@ -42,6 +42,10 @@ def program(row, n="{N}"):
         inner = [f"mut c = Cell{n}(m={INIT[d][0]})", f"c.m {row.get('cop', '+')}= {e}", f"want_{d}{n}(c.m)"]
     elif pos.startswith("compound-"):
         inner = [f"mut m: {T[d]} = {INIT[d][0]}", f"m {row.get('cop', '+')}= {e}", f"want_{d}{n}(m)"]
+    elif pos.startswith("constfwd-"):
+        # EARLY refers to X before X is declared: X is evaluated on demand; its annotation must still be checked
+        decls += f"\nconst EARLY{n}: {T[d]} = X{n}\nconst X{n}: {T[d]} = {e}\n"
+        inner = [f"want_{d}{n}(X{n})", f"want_{d}{n}(EARLY{n})"]
     else:  # const
         decls += f"\nconst X{n}: {T[d]} = {e}\n"
         inner = [f"want_{d}{n}(X{n})"]
@@ -139,7 +143,7 @@ def run(ctx):
             continue
         if real_ok:
             accepted.append(r)
-            if r["pos"].startswith("const-"):
+            if r["pos"].startswith(("const-", "constfwd-")):
                 ct = ob.get("const_types", {}).get("X")
                 if ct != r["declared"]:
                     ctx.fail("const-recorded-type", {"e": render.render_expr(r["e"]), "spec": r["declared"], "real": ct}, tags=tags)
@@ -170,7 +174,7 @@ def run(ctx):
         ev = expected_value(r)
         aborts = bool(r["verr"])
         cases.append({"id": f"n{k}", "decls": decls, "body": body, "aborts": aborts,
-                      "expect": {"out": [ev] if ev and not aborts else [], "status": "error" if aborts else "done", "err": r["verr"]},
+                      "expect": {"out": ([ev, ev] if r["pos"].startswith("constfwd-") else [ev]) if ev and not aborts else [], "status": "error" if aborts else "done", "err": r["verr"]},
                       "tags": r["feats"] + ["pos:" + r["pos"]] + (["compound:" + r["cop"] + "="] if r["pos"].startswith("compound-") else []) + (["compound-needs-grouping"] if r.get("cgroup") else []), "row": r, "judge_value": ev is not None or aborts})
     with ctx.timed("e2e"):
         obs = pipeline.run_cases(ctx, cases, per_batch=60)
